@@ -49,7 +49,7 @@ class C09(Prop):
     assumptions = ['compute_inverses=False only when step c is a refresh step; include_factors=False only when step c is both a factor-update and a refresh step (documented)',
                    'the numerical correctness of second-order data recomputed from restored factors is decided against refkfac in C05 (ckpt operation); here relations are bit-exact',
                    'vkit/simdist for the multi-rank share']
-    examples = {'quick': 80, 'thorough': 300}
+    examples = {'quick': 110, 'thorough': 300}
     shards = {'quick': 4, 'thorough': 16}
     shrink_budget_s = {'quick': 30.0, 'thorough': 180.0}
     required_labels = {'quick': ['nontrivial=True', 'multi_rank=True', 'recompute_branch=True', 'identical_branch=True'],
